@@ -651,3 +651,44 @@ func init() {
 			Old: "\tif err != nil {\n\t\treturn transformSyntacticError(err)\n\t}\n\tdst.Write(b)", New: "\tdst.Write(b)\n\tif err != nil {\n\t\treturn transformSyntacticError(err)\n\t}", Rule: "V1-6"},
 	)
 }
+
+func init() {
+	addMutants(
+		Mutant{ID: "charset1-hex-digit-range-short", Props: []string{"C01", "C11"}, File: "internal/jsonwire/decode.go", Func: "parseHexUint16",
+			Old: "case 'a' <= c && c <= 'f':", New: "case 'a' <= c && c <= 'e':", Rule: "CHARSET-1"},
+		Mutant{ID: "charset1-fraction-digits-to-eight", Props: []string{"C01", "C10"}, File: "internal/jsonwire/decode.go", Func: "ConsumeNumberResumable",
+			Old: "case '0' <= b[n] && b[n] <= '9':", New: "case '0' <= b[n] && b[n] < '9':", Rule: "CHARSET-1"},
+	)
+}
+
+func init() {
+	addMutants(
+		// ---- round-i strengthening
+		Mutant{ID: "quote1-insertquoted-strips-unconditionally", Props: []string{"C08", "C03"}, File: "jsontext/state.go", Func: "objectNamespace.insertQuoted",
+			Old: "\tif isVerbatim {\n\t\tname = name[len(`\"`) : len(name)-len(`\"`)]\n\t}\n", New: "\tname = name[len(`\"`) : len(name)-len(`\"`)]\n", Rule: "QUOTE-1"},
+		Mutant{ID: "v17-compact-empty-input-shortcut", Props: []string{"C09"}, File: "v1/indent.go", Func: "Compact",
+			Old: "\tb, err := jsontext.AppendFormat(b, src,", New: "\tif len(src) == 0 {\n\t\treturn nil\n\t}\n\tb, err := jsontext.AppendFormat(b, src,", Rule: "V1-7"},
+		Mutant{ID: "clone1-value-clone-is-a-view", Props: []string{"C18"}, File: "jsontext/value.go", Func: "Value.Clone",
+			Old: "return bytes.Clone(v)", New: "return v[:len(v):len(v)]", Rule: "CLONE-1"},
+		Mutant{ID: "cache1-nil-entry-reported-found", Props: []string{"C17", "C18"}, File: "arshal_funcs.go", Func: "typedArshalers.lookup",
+			Old: "\t\tif v == nil {\n\t\t\treturn fnc, false\n\t\t}", New: "\t\tif v == nil {\n\t\t\treturn fnc, true\n\t\t}", Rule: "CACHE-1"},
+		Mutant{ID: "indent1-prefix-allows-newline", Props: []string{"C02", "C12"}, File: "jsontext/options.go", Func: "WithIndentPrefix",
+			Old: "strings.Trim(prefix, \" \\t\")", New: "strings.Trim(prefix, \" \\t\\n\")", Rule: "INDENT-1"},
+		Mutant{ID: "codec1-rfc3339-unchecked", Props: []string{"C04"}, File: "arshal_time.go", Func: "timeArshaler.initFormat",
+			Old: "\tcase \"RFC3339\":\n\t\ta.base = 0\n", New: "\tcase \"RFC3339\":\n", Rule: "CODEC-1"},
+		Mutant{ID: "charset1-padded-digits-one-sided", Props: []string{"C04", "C10"}, File: "arshal_time.go", Func: "parsePaddedBase10",
+			Old: "if b[0] < '0' || '9' < b[0] {", New: "if b[0] < '0' {", Rule: "CHARSET-1"},
+		Mutant{ID: "flagsym1-time-format-precedence-swapped", Props: []string{"C04"}, File: "arshal_time.go", Func: "makeTimeArshaler",
+			Old: "\t\t\tif uo.Flags.Has(jsonflags.FormatTag) {\n\t\t\t\tif !u.initFormat(uo.Format) {\n\t\t\t\t\treturn newInvalidFormatError(dec, t)\n\t\t\t\t}\n\t\t\t} else if uo.Flags.Get(jsonflags.FormatDurationAsNano) {\n\t\t\t\treturn unmarshalNano(dec, va, uo)\n", New: "\t\t\tif uo.Flags.Get(jsonflags.FormatDurationAsNano) {\n\t\t\t\treturn unmarshalNano(dec, va, uo)\n\t\t\t} else if uo.Flags.Has(jsonflags.FormatTag) {\n\t\t\t\tif !u.initFormat(uo.Format) {\n\t\t\t\t\treturn newInvalidFormatError(dec, t)\n\t\t\t\t}\n", Rule: "FLAGSYM-1"},
+	)
+}
+
+func init() {
+	addMutants(
+		// ---- round-j strengthening
+		Mutant{ID: "merge1-map-seed-skipped-for-pointer-elements", Props: []string{"C14"}, File: "arshal_default.go", Func: "makeMapArshaler",
+			Old: "\t\t\t\t\tif !uo.Flags.Get(jsonflags.MergeWithLegacySemantics) {\n\t\t\t\t\t\tv.Set(v2)", New: "\t\t\t\t\tif !uo.Flags.Get(jsonflags.MergeWithLegacySemantics) && t.Elem().Kind() != reflect.Pointer {\n\t\t\t\t\t\tv.Set(v2)", Rule: "MERGE-1"},
+		Mutant{ID: "cap1-readvalue-uncapped-slice", Props: []string{"C05", "C18"}, File: "jsontext/decode.go", Func: "decoderState.ReadValue",
+			Old: "return d.buf[pos-n : pos : pos], nil", New: "return d.buf[pos-n : pos], nil", Rule: "CAP-1"},
+	)
+}
